@@ -1,6 +1,6 @@
 /-
   C04 — output side effects occur once per execution, in search order.
-  Proved: on the cut-free, negation-free fragment the text written up to every request is the text
+  Proved: on the cut-free fragment (negation included) the text written up to every request is the text
   the reference machine has written at the corresponding point of its run (`output_in_search_order`,
   the output component of the refinement theorem C01_pure: the machine executes a print / print_list
   / nl goal exactly when depth-first search reaches it, once per execution, retries included); and the
